@@ -701,7 +701,8 @@ func run18(c drv.Case, res *drv.Result) {
 		panic(err)
 	}
 	defer os.RemoveAll(scratch)
-	m, err := fuseh.NewMutable(env, nil, "r", scratch+"/staging", p.Leaf)
+	mountActor := memstore.NewActor("mount")
+	m, err := fuseh.NewMutable(env, mountActor, "r", scratch+"/staging", p.Leaf)
 	if err != nil {
 		res.Violate("mount-failed", "mutable", "NewMutableFS: %v", err)
 		return
@@ -773,7 +774,37 @@ func run18(c drv.Case, res *drv.Result) {
 			return
 		}
 	}
-	id, err := w.m.Commit()
+	// the commit runs under a progress monitor: not returned and no store call for 90 s = stalled (e.g. a walk that
+	// deadlocks on its own concurrency limit); a stalled commit is a violation, not a time-out of the case
+	type cres struct {
+		id  string
+		err error
+	}
+	cdone := make(chan cres, 1)
+	go func() {
+		id, err := w.m.Commit()
+		cdone <- cres{id, err}
+	}()
+	var id string
+	last, idle := -1, 0
+waitCommit:
+	for {
+		select {
+		case cr := <-cdone:
+			id, err = cr.id, cr.err
+			break waitCommit
+		case <-time.After(time.Second):
+			if n, _ := mountActor.Calls(); n == last {
+				idle++
+			} else {
+				last, idle = n, 0
+			}
+			if idle >= 90 {
+				w.violate("commit-stalled", "commit", "Commit of a tree of %d files has not returned and made no store call for 90 s (after %d store calls)", len(want), last)
+				return
+			}
+		}
+	}
 	w.logf("commit = %v (bundle %s)", err, id)
 	if err != nil {
 		w.violate("commit-failed", "commit", "Commit of a tree of %d files failed: %v", len(want), err)
